@@ -9,8 +9,8 @@ EXTENDS StrImpl, Units, Json, SequencesExt
 
 CONSTANTS UnitsFile, Devs, MaxStr
 
-VARIABLES pos, pat, lens        \* lens = <<minLength, maxLength>> or <<>> while unset
-vars == <<pos, pat, lens>>
+VARIABLES pos, pat, lens, fmtv  \* lens = <<minLength, maxLength>> or <<>> while unset; fmtv: a `format` the tool has no Go type for
+vars == <<pos, pat, lens, fmtv>>
 
 Off == [on |-> FALSE]
 On(v) == [on |-> TRUE, v |-> v]
@@ -31,6 +31,7 @@ HostDocs == [i \in DOMAIN HostStrings |-> JStr(HostStrings[i])]
 
 Unit(pos_, pat_, mn, mx) ==
   LET leaf == ("type" :> <<"string">>) @@ Field("minLength", mn) @@ Field("maxLength", mx) @@ Field("pattern", pat_)
+              @@ (IF fmtv = "none" THEN <<>> ELSE "format" :> fmtv)     \* email / uuid: still a Go string, every check stays
       strs == IF Host(pat_) THEN HostStrings ELSE Strings
       docs == IF Host(pat_) THEN HostDocs ELSE StrDocs
       okv  == {i \in DOMAIN strs : StrOK(leaf, strs[i], {}) /\ StrOK(leaf, strs[i], Devs)}
@@ -55,10 +56,11 @@ DesignOK == Set => LET unit == u IN Agree(unit, {})
 \* and switches inside the reference semantics (JV.Valid) predict the same verdicts
 AsIsOK   == Set => LET unit == u IN Agree(unit, Devs)
 
-Init == pos \in Positions /\ pat \in Pats /\ lens = <<>>
+Init == /\ pos \in Positions /\ pat \in Pats /\ lens = <<>> /\ fmtv \in {"none", "email", "uuid"}
+        /\ (fmtv # "none" => pos \in {"req", "nullopt", "defreq"} /\ pat \in {Off, On("p_a")})
 Pick == /\ lens = <<>>
         /\ lens' \in IF Host(pat) THEN {<<Off, Off>>, <<On(1), On(3)>>} ELSE MinLens \X MaxLens
-        /\ UNCHANGED <<pos, pat>>
+        /\ UNCHANGED <<pos, pat, fmtv>>
 Next == Pick
 Spec == Init /\ [][Next]_vars
 
